@@ -177,7 +177,9 @@ class Session:
         except Skip:
             raise
         except Exception as e:   # noqa
-            exc = e
+            # keep no reference to the exception object: its traceback would keep
+            # frames (and whatever they hold open) alive into the next call
+            return classify(e), repr(e)[:300]
         return classify(exc), exc
 
     def bad_item(self, kind):
